@@ -115,26 +115,35 @@ func NewParser(srcPath, dstPath string) (*Parser, error) {
 // the last element of its path.
 func importNames(file *ast.File, pkg *packages.Package) util.ImportNames {
 	imports := util.NewImportNames(file.Imports)
-	for _, spec := range file.Imports {
-		if spec.Name != nil && spec.Name.Name != "_" {
-			continue
-		}
-		pkgPath, err := strconv.Unquote(spec.Path.Value)
-		if err != nil {
-			continue
-		}
-		imp, ok := pkg.Imports[pkgPath]
-		if !ok || imp.Name == "" {
-			continue
-		}
-		if spec.Name == nil {
+	// Ordinary imports first, blank imports after them: a blank import yields its name.
+	for _, blanks := range []bool{false, true} {
+		for _, spec := range file.Imports {
+			if spec.Name != nil && spec.Name.Name != "_" {
+				continue
+			}
+			if blank := spec.Name != nil; blank != blanks {
+				continue
+			}
+			pkgPath, err := strconv.Unquote(spec.Path.Value)
+			if err != nil {
+				continue
+			}
+			imp, ok := pkg.Imports[pkgPath]
+			if !ok || imp.Name == "" {
+				continue
+			}
+			if spec.Name == nil {
+				imports[pkgPath] = imp.Name
+				continue
+			}
+			// A blank import is there for the notations to refer to. They do so by the
+			// name of the package, unless another import goes by it already.
 			imports[pkgPath] = imp.Name
-			continue
-		}
-		// A blank import is there for the notations to refer to. They do so by the
-		// name of the package, unless another import goes by it already.
-		if other, taken := imports.LookupPath(imp.Name); !taken || other == pkgPath {
-			imports[pkgPath] = imp.Name
+			for other, name := range imports {
+				if name == imp.Name && other != pkgPath {
+					imports[pkgPath] = "_"
+				}
+			}
 		}
 	}
 	return imports
